@@ -1,9 +1,11 @@
 (* Fields.v — transcription of ion/fields.go: fieldsFor, fielder.inspect, visible,
    parseIonTag, field.setopts.  No proofs.
 
-   fieldsFor panics ("too many fields named ...") on a repeated field name; the
-   index map of the fielder holds exactly the names of the fields appended so far,
-   so the test is a membership test on the accumulated list. *)
+   fieldsFor returns an error ("too many fields named ...") on a repeated field name
+   (it panicked before fix_duplicate_field_names_error); the index map of the fielder
+   holds exactly the names of the fields appended so far, so the test is a membership
+   test on the accumulated list.  An embedded Timestamp, Decimal, big.Int or time.Time
+   is a named field of its own (fix_embedded_scalar_struct), not flattened. *)
 From Coq Require Import String List NArith ZArith Bool.
 From IonV Require Import Base.Wire Data.Ion Go.GoTypes.
 Import ListNotations.
@@ -56,7 +58,7 @@ Fixpoint has_name (n : text) (l : list field) : bool :=
 Definition add_field (name tagname opts : text) (ft : gty) (newpath : list nat) (acc : list field)
   : res (list field) :=
   let nm := match tagname with [] => name | _ => tagname end in
-  if has_name nm acc then Panic
+  if has_name nm acc then Err
   else Ok (acc ++ [setopts {| f_name := nm; f_typ := ft; f_path := newpath; f_omit := false;
                               f_hint := TNoType; f_ann := false |} opts]).
 
@@ -84,12 +86,15 @@ Fixpoint inspect (fs : gfields) (path : list nat) (i : nat) (acc : list field) {
       let '(tn, opts) := parse_ion_tag tag in
       let newpath := path ++ [i] in
       let ft := match ty with TyPtr e => e | _ => ty end in
-      let dig := match tn with [] => embedded && is_struct_kind ft | _ => false end in
+      let dig := match tn with
+                 | [] => embedded && is_struct_kind ft && (is_symtok ft || negb (is_scalar_struct ft))
+                 | _ => false
+                 end in
       if dig then
         do acc' <- match ft with
                    | TyStruct fs' => inspect fs' newpath 0%nat acc
                    | TySymTok => inspect_flat symtok_fields newpath 0%nat acc
-                   | _ => Ok acc      (* Timestamp, Decimal, big.Int, time.Time: only unexported fields *)
+                   | _ => Ok acc      (* unreachable: dig excludes the scalar struct types *)
                    end;
         inspect rest path (S i) acc'
       else
